@@ -20,6 +20,11 @@ fn check(prop: &str, tier: Tier) {
     match prop {
         "C09" | "C10" | "C11" | "C12" => check_dom(prop, tier),
         "C18" => check_c18(tier),
+        "C14" => {
+            let run = Run::new("C14", tier, "model_checking");
+            let cov = vh::c14::check(&run);
+            run.finish(cov, &["finite boundary alphabets per attribute type; maps of at most 3 entries", "a rotation within f32::EPSILON of an axis-aligned basis is written as its rotation id (same snap as the binary format)", "docs/attributes.md NumberRange example contradicts its own prose; the prose is followed"]);
+        }
         "C01" => {
             let run = Run::new("C01", tier, "model_checking");
             let cov = vh::sweeps::check_c01(&run);
@@ -320,6 +325,14 @@ fn replay(prop: &str, file: &std::path::Path) {
                 println!("observed [{}]: {}", k, w);
             }
             println!("REPLAY property=C01 outcome={}", if vs.is_empty() { "holds" } else { "violation" });
+            std::process::exit(if vs.is_empty() { 0 } else { 1 });
+        }
+        "C14" => {
+            let vs = vh::c14::replay(case);
+            for (k, w) in &vs {
+                println!("observed [{}]: {}", k, w);
+            }
+            println!("REPLAY property=C14 outcome={}", if vs.is_empty() { "holds" } else { "violation" });
             std::process::exit(if vs.is_empty() { 0 } else { 1 });
         }
         "C02" => {
